@@ -56,6 +56,11 @@ func (dem *DepthExecutorManager) Execute() (map[string]interface{}, error) {
 	executionRequests := make([]*ExecutionRequest, 0)
 	errs := gqlerrors.ErrorList{}
 
+	// a plan without steps has nothing to execute, f.e. a subscription event with no object to stitch into
+	if dem.depthExecutors[0] == nil {
+		return dem.result, nil
+	}
+
 	// for initial step construct root queries
 	for _, step := range dem.depthExecutors[0].QueryPlanSteps {
 		insertionPoint := []string{}
